@@ -7,6 +7,8 @@ path, old, new, checks = sys.argv[1:5]
 run_tests = '--tests' in sys.argv
 tier = sys.argv[sys.argv.index('--tier') + 1] if '--tier' in sys.argv else 'quick'
 full = os.path.join('/repo', path)
+if subprocess.run('git -C /repo status --porcelain --untracked-files=no', shell=True, capture_output=True, text=True).stdout.strip():
+    sys.exit('/repo has uncommitted changes')
 text = open(full).read()
 if text.count(old) < 1:
     sys.exit('pattern not found in ' + path)
